@@ -110,40 +110,43 @@ func runMergeRules(c *Ctx) {
 		acc  ssa.Value // the map
 	}
 	var tripsMap, vehMap ssa.Value
-	for _, b := range fn.Blocks {
-		for _, in := range b.Instrs {
-			call, ok := in.(*ssa.Call)
-			if !ok {
-				continue
-			}
-			switch staticCallee(call) {
-			case r.mergeTrip, r.mergeVeh:
-				acc := call.Call.Args[0]
-				m, key := resolveAccLookup(c, acc)
-				if m == nil {
-					c.Violated("MERGE", r.fname, "merge target of "+shortName(staticCallee(call)), p.ipos(call), "merge target is not the accumulator looked up by the entity's id")
+	for _, g := range c.regionOf(fn) {
+		for _, b := range g.Blocks {
+			for _, in := range b.Instrs {
+				call, ok := in.(*ssa.Call)
+				if !ok {
 					continue
 				}
-				if staticCallee(call) == r.mergeTrip {
-					tripsMap = m
-				} else {
-					vehMap = m
-				}
-				// the key is the id of the merged value: m[x.ID] with merged value *x (or x for struct elements)
-				merged := call.Call.Args[1]
-				okKey := false
-				if key != nil {
-					kc := canon(key)
-					mc := canon(merged)
-					// key "*(X.ID)" (or "*(*(X.ID))" for vehicles) and merged "*(X)"
-					for _, pat := range []string{"*(%s.ID)", "*(*(%s.ID))"} {
-						base := strings.TrimSuffix(strings.TrimPrefix(mc, "*("), ")")
-						if kc == fmt.Sprintf(pat, base) {
-							okKey = true
+				switch staticCallee(call) {
+				case r.mergeTrip, r.mergeVeh:
+					acc := call.Call.Args[0]
+					m, key := resolveAccLookup(c, acc)
+					m = mapCellOf(c, m)
+					if m == nil {
+						c.Violated("MERGE", r.fname, "merge target of "+shortName(staticCallee(call)), p.ipos(call), "merge target is not the accumulator looked up by the entity's id")
+						continue
+					}
+					if staticCallee(call) == r.mergeTrip {
+						tripsMap = m
+					} else {
+						vehMap = m
+					}
+					// the key is the id of the merged value: m[x.ID] with merged value *x (or x for struct elements)
+					merged := call.Call.Args[1]
+					okKey := false
+					if key != nil {
+						kc := canon(key)
+						mc := canon(merged)
+						// key "*(X.ID)" (or "*(*(X.ID))" for vehicles) and merged "*(X)"
+						for _, pat := range []string{"*(%s.ID)", "*(*(%s.ID))"} {
+							base := strings.TrimSuffix(strings.TrimPrefix(mc, "*("), ")")
+							if kc == fmt.Sprintf(pat, base) {
+								okKey = true
+							}
 						}
 					}
+					c.Check(okKey, "MERGE", r.fname, "merge key of "+shortName(staticCallee(call))+" is the merged entity's own id", p.ipos(call), "accumulator looked up under the id of the value merged into it", "accumulator is looked up under a key other than the id of the value being merged: "+canon(acc)+" <- "+canon(merged))
 				}
-				c.Check(okKey, "MERGE", r.fname, "merge key of "+shortName(staticCallee(call))+" is the merged entity's own id", p.ipos(call), "accumulator looked up under the id of the value merged into it", "accumulator is looked up under a key other than the id of the value being merged: "+canon(acc)+" <- "+canon(merged))
 			}
 		}
 	}
@@ -170,7 +173,7 @@ func runMergeRules(c *Ctx) {
 			has := false
 			for _, b := range path {
 				for _, in := range b.Instrs {
-					if call, isCall := in.(*ssa.Call); isCall && staticCallee(call) == r.mergeTrip {
+					if call, isCall := in.(*ssa.Call); isCall && mergedArg(c, call, r.mergeTrip) != nil {
 						has = true
 						found = true
 					}
@@ -191,7 +194,7 @@ func runMergeRules(c *Ctx) {
 		for _, b := range g.Blocks {
 			for _, in := range b.Instrs {
 				mu, ok := in.(*ssa.MapUpdate)
-				if !ok || !(sameMapAs(c, mu.Map, tripsMap, 0) || sameMapAs(c, mu.Map, vehMap, 0)) {
+				if !ok || !(sameMapAs(c, mu.Map, tripsMap, 0) || sameMapAs(c, mu.Map, vehMap, 0) || mapCellOf(c, mu.Map) == tripsMap || mapCellOf(c, mu.Map) == vehMap) {
 					continue
 				}
 				okGuard := false
@@ -201,7 +204,7 @@ func runMergeRules(c *Ctx) {
 						cond, val = u.X, !val
 					}
 					if ex, isEx := cond.(*ssa.Extract); isEx && ex.Index == 1 && !val {
-						if lk, isLk := ex.Tuple.(*ssa.Lookup); isLk && lk.X == mu.Map && canon(lk.Index) == canon(mu.Key) {
+						if lk, isLk := ex.Tuple.(*ssa.Lookup); isLk && (lk.X == mu.Map || mapCellOf(c, lk.X) == mapCellOf(c, mu.Map)) && canon(lk.Index) == canon(mu.Key) {
 							okGuard = true
 						}
 					}
@@ -248,7 +251,7 @@ func runMergeRules(c *Ctx) {
 			}
 			inRange := false
 			for _, mr := range mrs {
-				if mr.rng.X == want && mr.loop != nil && mr.loop.Blocks[b] {
+				if mapCellOf(c, mr.rng.X) == want && mr.loop != nil && mr.loop.Blocks[b] {
 					// appended element is a copy of the range value
 					if el := appendedElem(st.Val); el != nil && derivedFrom(el, map[ssa.Value]bool{mr.val: true}, false) {
 						inRange = true
@@ -468,7 +471,30 @@ func mergeShape(c *Ctx, m *ssa.Function) {
 			}
 		}
 	}
-	okID := idStore != nil && idStore.Block() == m.Blocks[0] && isNewField(idStore.Val, "ID")
+	// on every path to a return the accumulator's ID is the incoming one: assigned directly, or as part of the whole value
+	okID := idStore != nil && isNewField(idStore.Val, "ID")
+	if okID {
+		var walk func(b *ssa.BasicBlock, got bool, on map[*ssa.BasicBlock]bool)
+		walk = func(b *ssa.BasicBlock, got bool, on map[*ssa.BasicBlock]bool) {
+			if on[b] || !okID {
+				return
+			}
+			on[b] = true
+			defer delete(on, b)
+			for _, in := range b.Instrs {
+				if st, ok := in.(*ssa.Store); ok && (st == idStore || (wholeStore != nil && st == wholeStore)) {
+					got = true
+				}
+				if _, isRet := in.(*ssa.Return); isRet && !got {
+					okID = false
+				}
+			}
+			for _, s2 := range b.Succs {
+				walk(s2, got, on)
+			}
+		}
+		walk(m.Blocks[0], false, map[*ssa.BasicBlock]bool{})
+	}
 	c.Check(okID, "MERGE", fname, "identifier always taken", p.pos(m.Pos()), "acc.ID = new.ID on every path", "the accumulator's identifier is not set from every mention")
 	okWhole := false
 	if wholeStore != nil {
@@ -497,9 +523,9 @@ func checkMergedOnAllPaths(r *rtCtx, merge *ssa.Function, typ, what string) {
 	var parsed ssa.Value
 	for b := range r.entity.Blocks {
 		for _, in := range b.Instrs {
-			if call, ok := in.(*ssa.Call); ok && staticCallee(call) == merge {
+			if call, ok := in.(*ssa.Call); ok && mergedArg(c, call, merge) != nil {
 				// the merged value: *x (passed by value) or x itself (passed by pointer), x the parsers' result
-				arg := call.Call.Args[1]
+				arg := mergedArg(c, call, merge)
 				if ld, ok := arg.(*ssa.UnOp); ok && ld.Op == token.MUL {
 					arg = ld.X
 				}
@@ -543,9 +569,11 @@ func checkMergedOnAllPaths(r *rtCtx, merge *ssa.Function, typ, what string) {
 		idNil := false
 		for i, b := range path {
 			for _, in := range b.Instrs {
-				if call, isCall := in.(*ssa.Call); isCall && staticCallee(call) == merge {
-					if ld, isLd := call.Call.Args[1].(*ssa.UnOp); (isLd && ld.X == parsed) || call.Call.Args[1] == parsed {
-						merged = true
+				if call, isCall := in.(*ssa.Call); isCall {
+					if ma := mergedArg(c, call, merge); ma != nil {
+						if ld, isLd := ma.(*ssa.UnOp); (isLd && ld.X == parsed) || ma == parsed {
+							merged = true
+						}
 					}
 				}
 			}
@@ -587,17 +615,19 @@ func runLinkRules(c *Ctx) {
 	fn := r.fn
 	mrs := findMapRanges([]*ssa.Function{fn})
 	var tripsMap, vehMap ssa.Value
-	for _, b := range fn.Blocks {
-		for _, in := range b.Instrs {
-			if call, ok := in.(*ssa.Call); ok && len(call.Call.Args) > 0 {
-				switch staticCallee(call) {
-				case r.mergeTrip:
-					if m, _ := resolveAccLookup(c, call.Call.Args[0]); m != nil {
-						tripsMap = m
-					}
-				case r.mergeVeh:
-					if m, _ := resolveAccLookup(c, call.Call.Args[0]); m != nil {
-						vehMap = m
+	for _, g := range c.regionOf(fn) {
+		for _, b := range g.Blocks {
+			for _, in := range b.Instrs {
+				if call, ok := in.(*ssa.Call); ok && len(call.Call.Args) > 0 {
+					switch staticCallee(call) {
+					case r.mergeTrip:
+						if m, _ := resolveAccLookup(c, call.Call.Args[0]); m != nil {
+							tripsMap = mapCellOf(c, m)
+						}
+					case r.mergeVeh:
+						if m, _ := resolveAccLookup(c, call.Call.Args[0]); m != nil {
+							vehMap = mapCellOf(c, m)
+						}
 					}
 				}
 			}
@@ -611,7 +641,7 @@ func runLinkRules(c *Ctx) {
 	assoc := map[ssa.Value][]*ssa.MapUpdate{}
 	for b := range r.entity.Blocks {
 		for _, in := range b.Instrs {
-			if mu, ok := in.(*ssa.MapUpdate); ok && mu.Map != tripsMap && mu.Map != vehMap {
+			if mu, ok := in.(*ssa.MapUpdate); ok && mapCellOf(c, mu.Map) != tripsMap && mapCellOf(c, mu.Map) != vehMap {
 				assoc[mu.Map] = append(assoc[mu.Map], mu)
 			}
 		}
@@ -627,10 +657,10 @@ func runLinkRules(c *Ctx) {
 		case *ssa.Extract:
 			if nx, ok := x.Tuple.(*ssa.Next); ok && x.Index == 2 {
 				if rng, ok := nx.Iter.(*ssa.Range); ok {
-					if rng.X == tripsMap {
+					if mapCellOf(c, rng.X) == tripsMap {
 						return "trip"
 					}
-					if rng.X == vehMap {
+					if mapCellOf(c, rng.X) == vehMap {
 						return "vehicle"
 					}
 				}
@@ -639,10 +669,10 @@ func runLinkRules(c *Ctx) {
 				return accKind(lk, d+1)
 			}
 		case *ssa.Lookup:
-			if x.X == tripsMap {
+			if mapCellOf(c, x.X) == tripsMap {
 				return "trip"
 			}
-			if x.X == vehMap {
+			if mapCellOf(c, x.X) == vehMap {
 				return "vehicle"
 			}
 			// a value of an association table: whatever was stored there
@@ -868,7 +898,7 @@ func runLinkRules(c *Ctx) {
 	}
 	// L3: in each resolution loop the link stores precede the copy-out
 	for _, mr := range mrs {
-		if mr.loop == nil || (mr.rng.X != tripsMap && mr.rng.X != vehMap) {
+		if mr.loop == nil || (mapCellOf(c, mr.rng.X) != tripsMap && mapCellOf(c, mr.rng.X) != vehMap) {
 			continue
 		}
 		var copyOut *ssa.Store
@@ -1068,4 +1098,108 @@ func sameSliceVar(a, b ssa.Value, l *Loop) bool {
 		return true
 	}
 	return false
+}
+
+// mapCellOf: the identity of a map variable: the map value itself when it never lives in a memory cell, otherwise the
+// cell (a local captured by closures is read through loads of its cell, in the function and in the closures).
+func mapCellOf(c *Ctx, v ssa.Value) ssa.Value {
+	for i := 0; i < 6 && v != nil; i++ {
+		switch x := v.(type) {
+		case *ssa.MakeMap:
+			if x.Referrers() != nil {
+				for _, r := range *x.Referrers() {
+					if st, ok := r.(*ssa.Store); ok && st.Val == ssa.Value(x) {
+						if a, isAlloc := st.Addr.(*ssa.Alloc); isAlloc {
+							return a
+						}
+					}
+				}
+			}
+			return x
+		case *ssa.UnOp:
+			if x.Op != token.MUL {
+				return v
+			}
+			switch a := x.X.(type) {
+			case *ssa.Alloc:
+				return a
+			case *ssa.FreeVar:
+				fn := a.Parent()
+				idx := freeVarIndex(fn, a)
+				if par := fn.Parent(); par != nil {
+					for _, b := range par.Blocks {
+						for _, in := range b.Instrs {
+							if mc, ok := in.(*ssa.MakeClosure); ok && mc.Fn == ssa.Value(fn) && idx < len(mc.Bindings) {
+								if al, isAlloc := mc.Bindings[idx].(*ssa.Alloc); isAlloc {
+									return al
+								}
+								v = mc.Bindings[idx]
+							}
+						}
+					}
+				}
+				if v == ssa.Value(x) {
+					return v
+				}
+				continue
+			}
+			return v
+		case *ssa.Parameter:
+			callers := c.P.Callers(x.Parent())
+			idx := paramIndex(x)
+			if len(callers) != 1 || idx < 0 || idx >= len(callers[0].Site.Common().Args) {
+				return v
+			}
+			v = callers[0].Site.Common().Args[idx]
+			continue
+		}
+		return v
+	}
+	return v
+}
+
+// mergedArg: if call merges a value into its accumulator -- a call of the merge function itself, or of a helper /
+// local closure that on every path hands its own parameter to the merge function -- the value it merges (as written
+// at the call), else nil.
+func mergedArg(c *Ctx, call *ssa.Call, merge *ssa.Function) ssa.Value {
+	cal := staticCallee(call)
+	if cal == nil {
+		return nil
+	}
+	if cal == merge {
+		if len(call.Call.Args) < 2 {
+			return nil
+		}
+		return call.Call.Args[1]
+	}
+	if !c.P.isModuleFn(cal) || len(cal.Blocks) == 0 || len(cal.Params) != len(call.Call.Args) {
+		return nil
+	}
+	// which parameter does the helper merge, on every path to its returns?
+	var prm *ssa.Parameter
+	var mcall *ssa.Call
+	for _, b := range cal.Blocks {
+		for _, in := range b.Instrs {
+			if ic, ok := in.(*ssa.Call); ok && staticCallee(ic) == merge && len(ic.Call.Args) >= 2 {
+				a := ic.Call.Args[1]
+				if ld, isLd := a.(*ssa.UnOp); isLd && ld.Op == token.MUL {
+					if pp := paramBehind(ld); pp != nil {
+						prm, mcall = pp, ic
+					} else if sp := structParamSpill(ld.X); sp != nil {
+						prm, mcall = sp, ic
+					}
+				} else if pp, isP := a.(*ssa.Parameter); isP {
+					prm, mcall = pp, ic
+				}
+			}
+		}
+	}
+	if prm == nil || !alwaysExecuted(mcall) {
+		return nil
+	}
+	k := paramIndex(prm)
+	if k < 0 || k >= len(call.Call.Args) {
+		return nil
+	}
+	return call.Call.Args[k]
 }
